@@ -188,6 +188,14 @@ def _absorb(rep, case, info):
                 rep["samples"][key] = sample
 
 
+def _scale(mod, subs):
+    """QUICK_SCALE / THOROUGH_SCALE of a check module multiply the case budgets of its sampled sub-checks."""
+    for s in subs:
+        if s.plain is None:
+            s.budget = {"quick": max(1, int(s.budget["quick"] * getattr(mod, "QUICK_SCALE", 1))),
+                        "thorough": max(1, int(s.budget["thorough"] * getattr(mod, "THOROUGH_SCALE", 1)))}
+
+
 def run_sub_shard(args):
     """Runs one sub-check shard in this process. args = (property module name, sub name, tier, seed, shard, nshards)"""
     modname, subname, tier, seed, shard, nshards = args
@@ -198,6 +206,7 @@ def run_sub_shard(args):
         import importlib
         mod = importlib.import_module(modname)
         sub = {s.name: s for s in mod.subs()}[subname]
+        _scale(mod, [sub])
         # the code under test may print (verbose=True is a hyper-parameter like any other): its stdout is discarded
         with open(os.devnull, "w") as devnull, contextlib.redirect_stdout(devnull):
             if sub.plain is not None:
@@ -337,6 +346,7 @@ def run_property(pid, modname, tier, seed, jobs, level="exploration", assumption
     t0 = time.time()
     mod = importlib.import_module(modname)
     subs = mod.subs()
+    _scale(mod, subs)
     tasks = []
     for s in subs:
         nsh = 1
